@@ -399,7 +399,7 @@ impl World for JoinWorld {
         let ts_max = *rng.pick(&[3u64, 6, 12]);
         let cond = *rng.pick(&[Cond::Always, Cond::Always, Cond::PayloadLe, Cond::PayloadEq]);
         let keyless_pct = *rng.pick(&[0u64, 0, 15, 30]);
-        let mut gen_side = |rng: &mut Rng| -> Vec<Ev> {
+        let gen_side = |rng: &mut Rng| -> Vec<Ev> {
             let n = rng.usize(5);
             (0..n)
                 .map(|_| Ev {
